@@ -291,9 +291,10 @@ Definition seek (s : filt) (offset : Z) (whence : Z) : Z * filt :=
       let '(sz, c1) := client_seek (cl s) 0 2 in
       if (sz <? 0)%Z then (sz, set_pos_client s (fpos s) c1)
       else
-        (* third loop of the SEEK_END case with one node: a target before the start has the
-           node size added once more *)
-        let off := (if 0 <=? sz + offset then sz + offset else 2 * sz + offset)%Z in
+        (* a target before the first or beyond the last byte is refused after the size probe *)
+        let off := (sz + offset)%Z in
+        if (off <? 0)%Z || (sz <? off)%Z then (ARCHIVE_FATAL, set_pos_client s (fpos s) c1)
+        else
         let '(r, c2) := client_seek c1 off 0 in
         if (r <? ARCHIVE_OK)%Z then (r, set_pos_client s (fpos s) c2) else finish r c2
     else (ARCHIVE_FATAL, s).
